@@ -270,7 +270,7 @@ var (
 	}
 	// The step function x<0 ? 0.0 : 1.0
 	stepFunction = func(input float64, auxParams []float64) float64 {
-		if math.Signbit(input) {
+		if input < 0.0 {
 			return 0.0
 		} else {
 			return 1.0
